@@ -84,8 +84,15 @@ pub fn stream_case(c: &Collector, cols: u32, lines: u32, chunks: &[Vec<u8>], utf
             }
             for ch in chunks {
                 p.feed(ch);
-                let d = arc.lock().unwrap().display();
-                ok_rows &= d.len() as u32 == arc.lock().unwrap().lines;
+                // single-threaded: if the listener mutex is still locked after feed() returned, the
+                // parser kept a guard across its suspension point and every later access would hang
+                let mut g = match arc.try_lock() {
+                    Ok(g) => g,
+                    Err(std::sync::TryLockError::WouldBlock) => panic!("listener mutex is still locked after feed() returned (any further access to the screen would block forever)"),
+                    Err(std::sync::TryLockError::Poisoned(e)) => e.into_inner(),
+                };
+                let d = g.display();
+                ok_rows &= d.len() as u32 == g.lines;
             }
             p.feed(FLUSH.as_bytes());
             p.feed(b"\x1bcx");
@@ -155,7 +162,12 @@ pub fn char_case(c: &Collector, cols: u32, lines: u32, chunks: &[String], utf8: 
             }
             for ch in chunks {
                 p.feed(ch.clone());
-                let _ = arc.lock().unwrap().display();
+                let mut g = match arc.try_lock() {
+                    Ok(g) => g,
+                    Err(std::sync::TryLockError::WouldBlock) => panic!("listener mutex is still locked after feed() returned (any further access to the screen would block forever)"),
+                    Err(std::sync::TryLockError::Poisoned(e)) => e.into_inner(),
+                };
+                let _ = g.display();
             }
             p.feed(FLUSH.to_string());
             p.feed("\x1bcx".to_string());
